@@ -5,7 +5,7 @@
 #  c. the demo fails with it.  Results: <src>/<id>/confirm.json ; the worktree is removed at the end.
 set -u
 SRC="$1"; shift
-WT=/var/tmp/scratch/wt-confirm
+WT=/var/tmp/scratch/wt-confirm${CONFIRM_WORKER:-}
 git -C /repo worktree remove --force $WT >/dev/null 2>&1
 git -C /repo worktree add --detach $WT HEAD -q || exit 2
 ids="$@"; [ -z "$ids" ] && ids=$(ls $SRC)
